@@ -70,6 +70,8 @@ func init() {
 		p.AliasPct = 40
 		p.SameAliasPct = 30
 		p.ForcedGroupBoost = 20
+		p.OtherNameAliasBoost = 35
+		p.MultiArgPct = 50
 		p.DiffAliasPct = 35
 	}), Oracle: oracle.C14}
 	Props["C16"] = &PropDef{Profile: prof("C16", func(p *gen.Profile) { p.OutFilePct = 0; p.MaxParams = 6; p.HugePct = 1 }), Mutate: c16Mutate, Oracle: oracle.C16}
